@@ -49,6 +49,7 @@ REVERTS = {
     "e1e14f6": ("C10", "revert: diff_abi_def ignores return values of nested definitions again"),
     "b1dc0b6": ("C17", "revert: [T; N] falls back to the default introspect_len (stops at 10000)"),
     "9ecb769": ("C04", "revert: Packed for ArrayVec forwards its element's answer again"),
+    "9a889ba": ("C10", "revert: by-reference decision compares the native layouts only (structurally identical layouts of different versions alias)"),
 }
 HISTORY = """
 ## How the checks fared
@@ -70,7 +71,7 @@ Batch 2 (C10..C18) was run blind. Missed on the first run and why; all are repor
 Silent by design: C03 on C03-A (C03 loads single values; the bulk path is C04's subject), C01 on C02-B and C05 on C13-A
 (consistent on both sides / needs the canary-u32 pair that only C13 constructs).
 
-Regressions (`R-<commit>`): the reverse of the four fix commits made after the seeding started, to show that the checks that led to
+Regressions (`R-<commit>`): the reverse of the five fix commits made after the seeding started, to show that the checks that led to
 the fixes still report them.
 """
 
